@@ -46,7 +46,7 @@ var KindName = []string{"?", "Structure", "Integer", "LongInteger", "BigInteger"
 var int32Pool = []int64{0, 1, -1, 2, 127, 128, -128, -129, 255, 256, 32767, 32768, -32768, 65535, 65536, 1<<31 - 1, -(1 << 31), 0x12345678, -0x12345678, 1 << 30}
 var int64Pool = []int64{0, 1, -1, 255, 256, 1<<31 - 1, 1 << 31, -(1 << 31), -(1 << 31) - 1, 1<<32 - 1, 1 << 32, 1<<52 - 1, 1 << 52, 1<<52 + 1, -(1 << 52), -(1 << 52) - 1, -(1 << 52) + 1, 1<<53 + 1, 1<<63 - 1, -(1 << 63), -(1 << 63) + 1, 0x0123456789abcdef}
 var u32Pool = []int64{0, 1, 2, 3, 255, 256, 65535, 65536, 1<<31 - 1, 1 << 31, 1<<31 + 1, 1<<32 - 1, 0x80000001, 0xdeadbeef}
-var tagPool = []int{0x420001, 0x420008, 0x42000a, 0x42000b, 0x420020, 0x420057, 0x42005c, 0x420069, 0x42007b, 0x420094, 0x4200a0, 0x540001, 0x54ffff, 0x420123, 0x42ffff, 0x000001, 0xffffff, 0x010203, 0x800000}
+var tagPool = []int{0x420001, 0x42002c, 0x42008e, 0x420008, 0x42000a, 0x42000b, 0x420020, 0x420057, 0x42005c, 0x420069, 0x42007b, 0x420094, 0x4200a0, 0x540001, 0x54ffff, 0x420123, 0x42ffff, 0x000001, 0xffffff, 0x010203, 0x800000}
 
 func GenTag(r *h.Rand) int {
 	if r.Chance(3, 4) {
@@ -105,7 +105,7 @@ func GenBig(r *h.Rand) *big.Int {
 	}
 }
 
-var textPool = []string{"", "a", "abc", "1234567", "12345678", "123456789", "Hello World", "x-custom", "\x00", "a\x00b", "\x01\x1f", "<>&\"'", "é", "日本語", "\U0001f600", "\xff\xfe", "tab\there", "line\nbreak", "quote\"back\\slash", strings.Repeat("z", 15), strings.Repeat("y", 16), strings.Repeat("w", 17)}
+var textPool = []string{"", "a", "abc", "1234567", "12345678", "123456789", "Hello World", "x-custom", "\x00", "a\x00b", "\x01\x1f", "<>&\"'", "é", "日本語", "\U0001f600", "\xff\xfe", "tab\there", "key\x7fone", "\x7f", "line\nbreak", "quote\"back\\slash", strings.Repeat("z", 15), strings.Repeat("y", 16), strings.Repeat("w", 17)}
 
 func GenText(r *h.Rand) []byte {
 	if r.Chance(3, 4) {
@@ -202,7 +202,8 @@ func ToValue(n Node) ttlv.Value {
 	case KBytes:
 		v.Value = append([]byte{}, n.S...)
 	case KDate:
-		v.Value = time.Unix(n.I, 0)
+		// a sub-second part (dropped by every encoding: whole seconds, truncated) on some instants
+		v.Value = time.Unix(n.I, []int64{0, 0, 499999999, 500000000, 999999999}[uint64(n.I)%5])
 	case KIntv:
 		v.Value = time.Duration(n.I) * time.Second
 	}
